@@ -173,6 +173,195 @@ fn judge_rt(st: &mut Stats, name: &'static str, n: usize, f: fn() -> Result<(), 
     st.check_case("C01", "roundtrip", name, || format!("C01 roundtrip {name} N={n}"), n > 0, || f().map_err(|e| e.to_string()));
 }
 
+
+/// Reinterpreting views that exist only because of the layout guarantee: slices regrouped into
+/// chunks (`chunks_from_slice(_mut)`, `slice_from_chunks`, `from_chunks`/`into_chunks`) and rows
+/// regrouped by `flatten`/`unflatten` (`&`, `&mut`, owned).  For every layout: same address,
+/// element (i, j) at base + (i*N + j)*size, writes through the regrouped `&mut` visible in the
+/// source, nothing outside the source touched (Miri checks the extents and provenance).
+#[inline(never)]
+fn views_facts<T: Lay, N: ArrayLength, const K: usize>() -> Result<(), String>
+where
+    Const<K>: IntoArrayLength<ArrayLength = N>,
+    N: core::ops::Mul<U2>,
+    generic_array::typenum::Prod<N, U2>: ArrayLength,
+{
+    use generic_array::sequence::Flatten;
+    let sz = size_of::<T>();
+    let total = 2 * K + 1;
+    let mut src: Vec<T> = (0..total).map(|i| T::make(i as u8)).collect();
+    let want: Vec<u64> = src.iter().map(|e| e.probe()).collect();
+    let base = src.as_ptr() as usize;
+    if K > 0 {
+        let (nch, nrem) = (total / K, total % K);
+        let (ch, rem) = GA::<T, N>::chunks_from_slice(&src);
+        if ch.len() != nch || rem.len() != nrem {
+            return Err(format!("ChunkCount: {} chunks + {} left from {total} elements", ch.len(), rem.len()));
+        }
+        if ch.as_ptr() as usize != base || rem.as_ptr() as usize != base + nch * K * sz || core::mem::size_of_val(ch) != nch * K * sz {
+            return Err("AddressMismatch: chunk view does not start at the slice / remainder not right behind it".into());
+        }
+        for (i, c) in ch.iter().enumerate() {
+            for (j, e) in c.iter().enumerate() {
+                if e as *const T as usize != base + (i * K + j) * sz || e.probe() != want[i * K + j] {
+                    return Err(format!("OffsetMismatch: chunk {i} element {j}"));
+                }
+            }
+        }
+        let back = GA::<T, N>::slice_from_chunks(ch);
+        if back.as_ptr() as usize != base || back.len() != nch * K {
+            return Err("AddressMismatch: slice_from_chunks".into());
+        }
+        let nat: &[[T; K]] = GA::<T, N>::into_chunks(ch);
+        if nat.as_ptr() as usize != base || nat.len() != nch || nat[1][K - 1].probe() != want[2 * K - 1] {
+            return Err("AddressMismatch: into_chunks".into());
+        }
+        let again: &[GA<T, N>] = GA::<T, N>::from_chunks(nat);
+        if again.as_ptr() as usize != base || again.len() != nch {
+            return Err("AddressMismatch: from_chunks".into());
+        }
+        // mutable chunk view: write through it, read through the source
+        {
+            let (chm, remm) = GA::<T, N>::chunks_from_slice_mut(&mut src);
+            if chm.len() != nch || remm.len() != nrem {
+                return Err("ChunkCount: chunks_from_slice_mut".into());
+            }
+            chm[1][0] = T::make(77);
+            if nrem > 0 {
+                remm[0] = T::make(78);
+            }
+            let natm: &mut [[T; K]] = GA::<T, N>::into_chunks_mut(chm);
+            natm[0][K - 1] = T::make(79);
+            let gm: &mut [GA<T, N>] = GA::<T, N>::from_chunks_mut(natm);
+            let flat = GA::<T, N>::slice_from_chunks_mut(gm);
+            flat[0] = T::make(80);
+        }
+        let mut exp = want.clone();
+        exp[K] = T::make(77).probe();
+        if nrem > 0 {
+            exp[nch * K] = T::make(78).probe();
+        }
+        exp[K - 1] = T::make(79).probe();
+        exp[0] = T::make(80).probe();
+        if src.iter().map(|e| e.probe()).ne(exp.iter().copied()) {
+            return Err("ContentMismatch: writes through the mutable chunk views are not where the source expects them".into());
+        }
+    } else {
+        let empty: &[T] = &src[..0];
+        let (ch, rem) = GA::<T, N>::chunks_from_slice(empty);
+        if !ch.is_empty() || !rem.is_empty() {
+            return Err("ChunkCount: N = 0 over an empty slice".into());
+        }
+    }
+    // rows: GenericArray<GenericArray<T, N>, U2>
+    let mut rows: GA<GA<T, N>, U2> = GA::<GA<T, N>, U2>::generate(|i| GA::<T, N>::generate(|j| T::make((i * K + j) as u8)));
+    if size_of::<GA<GA<T, N>, U2>>() != 2 * K * sz || align_of::<GA<GA<T, N>, U2>>() != align_of::<T>() {
+        return Err("NestedLayout: GenericArray<GenericArray<T,N>,U2> is not 2*N*size, aligned as T".into());
+    }
+    let rbase = &rows as *const _ as usize;
+    {
+        let f: &GA<T, generic_array::typenum::Prod<N, U2>> = (&rows).flatten();
+        if f as *const _ as usize != rbase || f.len() != 2 * K {
+            return Err("AddressMismatch: (&rows).flatten()".into());
+        }
+        for (i, e) in f.iter().enumerate() {
+            if e as *const T as usize != rbase + i * sz || e.probe() != T::make(i as u8).probe() {
+                return Err(format!("OffsetMismatch: flattened element {i}"));
+            }
+        }
+    }
+    if K > 0 {
+        {
+            let f: &mut GA<T, generic_array::typenum::Prod<N, U2>> = (&mut rows).flatten();
+            f[K] = T::make(90);
+            f[K - 1] = T::make(91);
+        }
+        if rows[1][0].probe() != T::make(90).probe() || rows[0][K - 1].probe() != T::make(91).probe() {
+            return Err("ContentMismatch: write through (&mut rows).flatten() not visible in the rows".into());
+        }
+    }
+    let flat: GA<T, generic_array::typenum::Prod<N, U2>> = rows.flatten();
+    let mut expf: Vec<u64> = (0..2 * K).map(|i| T::make(i as u8).probe()).collect();
+    if K > 0 {
+        expf[K] = T::make(90).probe();
+        expf[K - 1] = T::make(91).probe();
+    }
+    if flat.iter().map(|e| e.probe()).ne(expf.iter().copied()) {
+        return Err("ContentMismatch: owned flatten".into());
+    }
+    Ok(())
+}
+
+#[inline(never)]
+fn unflat_facts<T: Lay, N: ArrayLength, const K: usize>() -> Result<(), String>
+where
+    Const<K>: IntoArrayLength<ArrayLength = N>,
+    N: core::ops::Mul<U3>,
+    generic_array::typenum::Prod<N, U3>: ArrayLength + core::ops::Div<N>,
+    generic_array::typenum::Quot<generic_array::typenum::Prod<N, U3>, N>: ArrayLength,
+{
+    use generic_array::sequence::Unflatten;
+    type NM<N> = generic_array::typenum::Prod<N, U3>;
+    let sz = size_of::<T>();
+    let mut flat: GA<T, NM<N>> = GA::<T, NM<N>>::generate(|i| T::make(i as u8));
+    let base = &flat as *const _ as usize;
+    {
+        let rows = Unflatten::<T, NM<N>, N>::unflatten(&flat);
+        if rows as *const _ as usize != base || rows.len() != 3 || core::mem::size_of_val(rows) != 3 * K * sz {
+            return Err(format!("AddressMismatch: (&flat).unflatten() gives {} rows", rows.len()));
+        }
+        for (i, r) in rows.iter().enumerate() {
+            for (j, e) in r.iter().enumerate() {
+                if e as *const T as usize != base + (i * K + j) * sz || e.probe() != T::make((i * K + j) as u8).probe() {
+                    return Err(format!("OffsetMismatch: row {i} element {j}"));
+                }
+            }
+        }
+    }
+    {
+        let rows = Unflatten::<T, NM<N>, N>::unflatten(&mut flat);
+        rows[2][0] = T::make(92);
+        rows[1][K - 1] = T::make(93);
+    }
+    if flat[2 * K].probe() != T::make(92).probe() || flat[2 * K - 1].probe() != T::make(93).probe() {
+        return Err("ContentMismatch: write through (&mut flat).unflatten() not visible in the flat array".into());
+    }
+    let rows = Unflatten::<T, NM<N>, N>::unflatten(flat);
+    if rows.len() != 3 || rows[2][0].probe() != T::make(92).probe() || rows[0][0].probe() != T::make(0).probe() {
+        return Err("ContentMismatch: owned unflatten".into());
+    }
+    Ok(())
+}
+
+#[inline(always)]
+fn views<T: Lay, N: ArrayLength, const K: usize>(st: &mut Stats)
+where
+    Const<K>: IntoArrayLength<ArrayLength = N>,
+    N: core::ops::Mul<U2>,
+    generic_array::typenum::Prod<N, U2>: ArrayLength,
+{
+    judge_views(st, "regrouped_views", T::NAME, K, views_facts::<T, N, K>);
+}
+
+#[inline(always)]
+fn unflat<T: Lay, N: ArrayLength, const K: usize>(st: &mut Stats)
+where
+    Const<K>: IntoArrayLength<ArrayLength = N>,
+    N: core::ops::Mul<U3>,
+    generic_array::typenum::Prod<N, U3>: ArrayLength + core::ops::Div<N>,
+    generic_array::typenum::Quot<generic_array::typenum::Prod<N, U3>, N>: ArrayLength,
+{
+    judge_views(st, "unflatten_views", T::NAME, K, unflat_facts::<T, N, K>);
+}
+
+fn judge_views(st: &mut Stats, what: &'static str, name: &'static str, n: usize, f: fn() -> Result<(), String>) {
+    st.check_case("C01", what, name, || format!("C01 {what} {name} N={n}"), n > 0, || f().map_err(|e| {
+        let kind = e.split(':').next().unwrap_or("Mismatch").to_string();
+        let _ = kind;
+        e
+    }));
+}
+
 /// heap placement: a Box<GenericArray<T, N>> built by every boxed constructor must sit at an
 /// address aligned as T (also when nothing is allocated: zero-sized T or N = 0), hold N
 /// elements at base + i*size, and read back what was written
@@ -287,6 +476,9 @@ macro_rules! small_for { ($st:expr, $maxn:expr, $T:ty; $($v:literal)*) => { $( i
 macro_rules! each_layout_small { ($st:expr, $maxn:expr; $([$T:ty])*) => { $( { fn go(st: &mut Stats, maxn: usize) { tbl_small_lens!(small_for; st, maxn, $T); } go($st, $maxn); } )* }; }
 macro_rules! boxed_for { ($st:expr, $maxn:expr, $T:ty; $($v:literal)*) => { $( if $v <= $maxn { boxed::<$T, U<$v>>($st); } )* }; }
 macro_rules! each_layout_boxed { ($st:expr, $maxn:expr; $([$T:ty])*) => { $( boxed_for!($st, $maxn, $T; 0 1 2 3 8 17); )* }; }
+macro_rules! views_for { ($st:expr, $maxn:expr, $T:ty; $($v:literal)*) => { $( if $v <= $maxn { views::<$T, U<$v>, $v>($st); } )* }; }
+macro_rules! unflat_for { ($st:expr, $maxn:expr, $T:ty; $($v:literal)*) => { $( if $v <= $maxn { unflat::<$T, U<$v>, $v>($st); } )* }; }
+macro_rules! each_layout_views { ($st:expr, $maxn:expr; $([$T:ty])*) => { $( { fn go(st: &mut Stats, maxn: usize) { views_for!(st, maxn, $T; 0 1 2 3 5 8 17); unflat_for!(st, maxn, $T; 1 2 3 5 8 17); } go($st, $maxn); } )* }; }
 macro_rules! tiling_lens { ($st:expr, $E:ty; $($v:literal)*) => { $( tiling::<$E, U<$v>>($st); )* }; }
 
 fn tiling_all<E: Elem>(st: &mut Stats) {
@@ -322,6 +514,10 @@ fn main() {
     }
     if args.part_on("boxed") {
         for_box_layouts!(each_layout_boxed; &mut st, args.maxn);
+    }
+    if args.part_on("views") {
+        for_box_layouts!(each_layout_views; &mut st, args.maxn);
+        for_quick_layouts!(each_layout_views; &mut st, args.maxn);
     }
     if args.part_on("tiling") {
         tiling_all::<Tok>(&mut st);
